@@ -190,6 +190,8 @@ fn gen_runs(fam: &str, tier: &str, seed: u64, dir: &str) -> Value {
         let (nframes, maxp) = match r % 3 { 0 => (8, 6), 1 => (40, 40), _ => (if tier == "thorough" { 200 } else { 60 }, 300) };
         let evs = match fam {
             "c15" => crate::aread::run_random(seed.wrapping_mul(1000003).wrapping_add(r as u64), nframes, maxp),
+            "c14r" => crate::bio::run_read_random(seed.wrapping_mul(1000003).wrapping_add(r as u64), nframes, maxp),
+            "c14w" => crate::bio::run_write_random(seed.wrapping_mul(1000003).wrapping_add(r as u64), nframes, maxp),
             "c16" => crate::awrite::run_random(seed.wrapping_mul(1000003).wrapping_add(r as u64), nframes, maxp),
             _ => vec![]
         };
@@ -207,7 +209,7 @@ pub fn cmd_gen(args: &[String]) -> i32 {
     let (fam, tier, seed, dir) = (&args[0], &args[1], args[2].parse::<u64>().unwrap_or(0), &args[3]);
     let cap = args.get(4).and_then(|s| s.parse::<usize>().ok()).unwrap_or(100_000);
     #[cfg(feature = "io")]
-    if fam == "c15" || fam == "c16" { println!("{}", gen_runs(fam, tier, seed, dir)); return 0 }
+    if fam == "c15" || fam == "c16" || fam == "c14r" || fam == "c14w" { println!("{}", gen_runs(fam, tier, seed, dir)); return 0 }
     let mut sink = Sink::new(dir, cap);
     match fam.as_str() {
         "c05" => gen_c05(&mut sink, tier, seed),
